@@ -112,6 +112,7 @@ package modbus
 //@   ensures[C07] err == nil ==> len(res) >= expectedLen || (errIs(lastErr, io.EOF) && faults > old(faults))
 //@   ensures[C07] faults >= old(faults) && streamPos <= streamLen && streamPos >= old(streamPos)
 //@   ensures[C08] err != nil ==> isnil(res)
+//@   ensures[C08.oversize] err == nil ==> len(res) <= 260
 //@   ensures[C08.fault] err == nil && reads > old(reads) ==> lastErr == nil || errIs(lastErr, os.ErrDeadlineExceeded) || errIs(lastErr, io.EOF)
 //@   ensures[C08.classify] err != nil ==> dyntype(err) == *ClientError || err == ctxErr
 //@   ensures[C12] dyntype(err) != *packet.ErrorResponseRTU && dyntype(err) != *packet.ErrorResponseTCP
@@ -183,14 +184,28 @@ package modbus
 //@   modifies nothing
 
 //@ func NewTCPClientWithConfig(conf ClientConfig) (res *Client)
-//@   safety[C07,C12]
+//@   safety[C07,C12,C19]
 //@   fresh[C07] res
 //@   ensures[C07,C08,C12] res != nil && tcpClient(res) && res.conn == nil
+//@   ensures[C19.installed] res != nil && res.hooks == conf.Hooks
+//@   ensures[C08] res != nil && (conf.ReadTimeout > 0 ==> res.readTimeout == conf.ReadTimeout)
 
 //@ func NewRTUClientWithConfig(conf ClientConfig) (res *Client)
-//@   safety[C07,C12]
+//@   safety[C07,C12,C19]
 //@   fresh[C07] res
 //@   ensures[C07,C08,C12] res != nil && rtuClient(res) && res.conn == nil
+//@   ensures[C19.installed] res != nil && res.hooks == conf.Hooks
+//@   ensures[C08] res != nil && (conf.ReadTimeout > 0 ==> res.readTimeout == conf.ReadTimeout)
+
+//@ func NewClient(conf ClientConfig) (res *Client)
+//@   safety[C19]
+//@   ensures[C19.installed] res != nil && res.hooks == conf.Hooks
+
+//@ func WithSerialHooks$1(c *SerialClient)
+//@   requires c != nil
+//@   safety[C19]
+//@   modifies c.hooks
+//@   ensures[C19.installed] c.hooks == hooks
 
 //@ func NewTCPClient() (res *Client)
 //@   safety[C07,C12]
@@ -273,6 +288,7 @@ package modbus
 //@   ensures[C07] err == nil ==> len(res) >= expectedLen
 //@   ensures[C07] faults >= old(faults) && streamPos <= streamLen && streamPos >= old(streamPos)
 //@   ensures[C08] err != nil ==> isnil(res)
+//@   ensures[C08.oversize] err == nil ==> len(res) <= 260
 //@   ensures[C08.fault] err == nil && reads > old(reads) ==> lastErr == nil || errIs(lastErr, os.ErrDeadlineExceeded) || errIs(lastErr, io.EOF)
 //@   ensures[C08.classify] err != nil ==> dyntype(err) == *ClientError || err == ctxErr
 //@   ensures[C12] dyntype(err) != *packet.ErrorResponseRTU && dyntype(err) != *packet.ErrorResponseTCP
